@@ -722,6 +722,18 @@ def gen_case(seed, profile='edit'):
     return {'seed': seed, 'mcmeta': mcmeta, 'base': base, 'pool': pool, 'ops': ops}
 
 
+def annotations_lost(before, now, op, removed_identity):
+    """frame rule for annotations: no operation deletes an annotation, except remove_variable those of the variable removed
+    (its subject); transfer_cmeta_id moves them to the new subject.  -> the triples that disappeared against the rule"""
+    gone = [t for t in before if t not in now]
+    if op[0] == 'rmvar' and removed_identity is not None:
+        gone = [t for t in gone if t[0] != removed_identity]
+    if op[0] == 'transfer':
+        po = sorted((str(t[1]), str(t[2])) for t in before)
+        gone = [] if po == sorted((str(t[1]), str(t[2])) for t in now) else gone
+    return gone
+
+
 def correspond(ctx, cases, plains, label, fn=FN, with_rhs=False):
     """model vs implementation, operation by operation"""
     idx = [i for i, p in enumerate(plains) if 'eqrecs' in p]
